@@ -394,6 +394,14 @@ def gen_stream(rng, tree):
         return MAGIC + b"".join(p for p, _ in parts[:k]) + frame(evil) + b"".join(p for p, _ in parts[k:]), "hostile-cbor", desc
     if kind == 9:
         return rng.bytes(rng.below(80)), "random-bytes", []
+    if kind == 10 and rng.coin(1, 2):
+        # a prologue that is ALMOST the right one: another digit / letter in the version position, another case, one byte off
+        # anywhere — followed by the whole well-formed session. Only `COPIA1` opens a session (seed C12-K: `COPIA0` accepted
+        # as an older "wire generation").
+        i = rng.pick([5, 5, 5, rng.below(6)])
+        alt = bytearray(MAGIC)
+        alt[i] = rng.pick([c for c in b"0123456789Aa2" + bytes([MAGIC[i] ^ 0x20, (MAGIC[i] + 1) & 0xFF, (MAGIC[i] - 1) & 0xFF]) if c != MAGIC[i]])
+        return bytes(alt) + stream[6:], "near-miss-prologue", desc
     if kind == 10:
         return MAGIC[:rng.below(6)], "partial-magic", []
     if kind == 11:
@@ -460,13 +468,27 @@ def dir_target_corpus():
     return out
 
 
+def prologue_corpus():
+    """Every prologue that differs from `COPIA1` in its LAST byte by being another digit or a letter, and a few that differ
+    elsewhere, each followed by a whole well-formed session that would create and delete files: only `COPIA1` opens a session
+    (seed C12-K: `COPIA0` read as an older wire generation)."""
+    tree = {"g.txt": b"hello hub\n"}
+    c = b"x"
+    h = bytes.fromhex(blake3_hex([c])[0]); hg = bytes.fromhex(blake3_hex([tree["g.txt"]])[0])
+    body = frame(req_hello()) + frame(req_put("f", None, len(c), h)) + c + frame(req_delete("g.txt", hg)) + frame(req_list()) + frame(req_bye())
+    out = []
+    for alt in [b"COPIA" + bytes([d]) for d in b"023456789aAzZ"] + [b"COPIa1", b"cOPIA1", b"COPIB1", b"COPI\x001", b"COPIA\x31"[:5] + b"\x00"]:
+        out.append((dict(tree), alt + body, "near-miss-prologue", [f"prologue {alt!r}", "hello", "put f", "delete g.txt", "list", "bye"]))
+    return out
+
+
 def run_c12(pid, tier, seed, rundir, model_run, res, count):
     rng = Rng(seed ^ 0xC12)
     fs_failure_sessions(rng, res, count)
     n = 160 * (12 if tier == "thorough" else 1)
     dec = ReqDecoder()
     ops, impl, reps = [], [], []
-    corpus = dir_target_corpus()
+    corpus = dir_target_corpus() + prologue_corpus()
     for i in range(n):
         tree = {}
         for _ in range(rng.below(4)):
@@ -586,8 +608,17 @@ def run_c11(pid, tier, seed, rundir, model_run, res, count):
         tf = sb.path("trace.txt")
         run_server(sb, root, MAGIC + frame(req_hello()) + frame(req_bye()), strace_out=tf)
         baseline = {a for _, args in trace_paths(tf) for a in args}
+    # fixed system paths the C library / the runtime may read LAZILY, at a moment that depends on scheduling (glibc sizes its malloc
+    # arenas from the processor count the first time two threads contend; std's available_parallelism reads the cgroup limits): they
+    # do not depend on any request and are absent from a quiet baseline session — seen as 252 false alarms under a loaded machine
+    baseline |= {"/sys/devices/system/cpu/online", "/sys/devices/system/cpu", "/proc/stat", "/proc/cpuinfo", "/proc/self/cgroup", "/proc/self/mountinfo",
+                 "/sys/fs/cgroup/cpu.max", "/proc/sys/vm/overcommit_memory", "/sys/kernel/mm/transparent_hugepage/enabled", "/proc/self/maps"}
     for i in range(n):
         paths = [gen_path(rng)]          # one path per session: two generated paths may clash as file/directory (outside the domain)
+        if i % 9 == 4:
+            # an ABSOLUTE path that names a place inside the served root (or its control directory): absolute is refused, wherever
+            # it points (seed C11-K: the joined result was tested against the root instead of refusing rooted paths up front)
+            paths = ["@ROOT@" + rng.pick(["/planted.txt", "/zz/keep", "/newdir/x", "/.copia/planted", "/.copia/commit.lock", "//zz/keep"])]
         p0 = paths[0]
         if (p0.startswith("/") or ".." in p0.split("/")) and ".copia" not in p0 and rng.coin(1, 2):
             # … except after a path that MUST be refused (nothing is created for it): the same refused directory again with
@@ -599,6 +630,7 @@ def run_c11(pid, tier, seed, rundir, model_run, res, count):
             root = sb.path("outer", "hub")
             os.makedirs(os.path.join(root, "zz"))
             open(os.path.join(root, "zz", "keep"), "wb").write(b"inside")
+            paths = [p_.replace("@ROOT@", root if i % 2 else "/" + root) for p_ in paths]
             sentinel = sb.path("outer", "secret.txt")
             open(sentinel, "wb").write(b"outside the root")
             open(sb.path("outer", "b"), "wb").write(b"outside too")
